@@ -22,6 +22,12 @@ fn main() {
     if args[1] == "--child-build" {
         std::process::exit(checks::c05::child_main());
     }
+    if args[1] == "--gamma" {
+        let a: f64 = args[2].parse().unwrap();
+        let p: f64 = args[3].parse().unwrap();
+        println!("a={} p={:e} -> {:?}  (P at result: {:?})", a, p, checks::c12::call(a, p), match checks::c12::call(a, p) { checks::c12::GOut::Ok(l) => special::gamma_pq(a, l).0, _ => f64::NAN });
+        return;
+    }
     if args[1] == "--child-probe" {
         std::process::exit(checks::c17::child_main());
     }
